@@ -137,6 +137,10 @@ func (so *Sorts) structOf(t types.Type) *StructInfo {
 		name = fmt.Sprintf("Anon%d", len(so.structs))
 	}
 	sortName := name
+	switch sortName {
+	case "Int", "Bool", "Real", "Str", "Slice", "Array", "Float", "String":
+		sortName = "Go" + sortName
+	}
 	if _, dup := so.structs[sortName]; dup {
 		sortName = fmt.Sprintf("%s_%d", name, len(so.structs))
 	}
